@@ -1448,16 +1448,16 @@ def turnOf (m : UnitMode) : Int := if m = .raw then 65536 else 360
 /-- **cycle increment.**  The prologue of `repeat n with v cycle …`: `incr` becomes a full turn
 — 65536 when the unit-mode register holds `raw`, else 360 — divided by the count `c` in the
 hidden counter, exactly (ℚ); with a count of 0 it becomes 0 and nothing faults. -/
-theorem run_cycleIncr (img : Image) (s : State) (pc : Nat) (vars : List (LoopVar × Val)) (h : Nat)
+theorem run_cycleIncr_val (img : Image) (s : State) (pc : Nat) (vars : List (LoopVar × Val)) (h : Nat)
     (rest : List Frame) (c : Rat) (fl : Bool) (m : UnitMode)
     (hs : s.status = .running) (hpc : s.pc = (pc : Int)) (hc : CodeAt img pc cycleTail)
     (hst : s.stack = .loop vars h :: rest) (hn : Num (getLV vars .counter) c fl)
     (hm : s.regs .unitMode = .mode m) :
-    ∃ k vars' R, run img k s =
-        { s with pc := (pc : Int) + 18, regs := R, stack := .loop vars' h :: rest } ∧
-      (∀ q, q ≠ .result → R q = s.regs q) ∧
-      Num (getLV vars' .incr) (if c = 0 then 0 else ((turnOf m : Int) : Rat) / c) (!decide (c = 0)) ∧
-      (∀ l, l ≠ .incr → getLV vars' l = getLV vars l) := by
+    ∃ k R, run img k s =
+        { s with pc := (pc : Int) + 18, regs := R,
+                 stack := .loop (setLV vars .incr
+                   (if c = 0 then .int 0 else .num (((turnOf m : Int) : Rat) / c))) h :: rest } ∧
+      (∀ q, q ≠ .result → R q = s.regs q) := by
   let R0 : Reg → Val := fun q => if q = .result then .bool (decide (c = 0)) else s.regs q
   let sA : State := { s with pc := (pc : Int) + 4, regs := R0 }
   have heq : binVal .eq (getLV vars .counter) (.int 0) = some (.bool (decide (c = 0))) := by
@@ -1479,11 +1479,9 @@ theorem run_cycleIncr (img : Image) (s : State) (pc : Nat) (vars : List (LoopVar
         ({ s with pc := (pc : Int) + 18, regs := R0, stack := .loop (setLV vars .incr (.int 0)) h :: rest } : State) := by
       rw [run_jump_always img _ (pc + 6) 12 (by exact hs) (by simp) (hc.get 6 (by decide))]
       apply State.ext' <;> first | rfl | (simp; omega)
-    refine ⟨4 + (1 + (1 + 1)), setLV vars .incr (.int 0), R0, run_trans hA (run_trans hJ (run_trans hM hK)),
-      ?_, ?_, ?_⟩
+    refine ⟨4 + (1 + (1 + 1)), R0, ?_, ?_⟩
+    · rw [if_pos h0]; exact run_trans hA (run_trans hJ (run_trans hM hK))
     · intro q hq; simp [R0, hq]
-    · rw [getLV_setLV_self]; simpa [h0] using Num.int 0
-    · intro l hl; exact getLV_setLV_other _ _ _ _ hl
   · have hJ : run img 1 sA = ({ s with pc := (pc : Int) + 7, regs := R0 } : State) := by
       rw [run_jump_ifFalse img sA (pc + 4) 3 (by exact hs) (by simp [sA]) (hc.get 4 (by decide))]
       apply State.ext' <;> first | rfl | (simp [sA, R0, h0, Val.truthy]; omega) | (simp [sA, R0, h0, Val.truthy])
@@ -1541,13 +1539,27 @@ theorem run_cycleIncr (img : Image) (s : State) (pc : Nat) (vars : List (LoopVar
       simp only [List.length_cons, List.length_nil] at this
       rw [this]
       apply State.ext' <;> first | rfl | (simp [sC]; omega)
-    refine ⟨4 + (1 + (4 + (kT + 3))), setLV vars .incr iv, R1,
-      run_trans hA (run_trans hJ (run_trans hB (run_trans hT hD))), ?_, ?_, ?_⟩
+    refine ⟨4 + (1 + (4 + (kT + 3))), R1, ?_, ?_⟩
+    · rw [if_neg h0]; exact run_trans hA (run_trans hJ (run_trans hB (run_trans hT hD)))
     · intro q hq; simp [R1, R0, hq]
-    · rw [getLV_setLV_self]
-      simp only [h0, if_false, decide_false, Bool.not_false, iv]
-      exact Num.num _
-    · intro l hl; exact getLV_setLV_other _ _ _ _ hl
+
+theorem run_cycleIncr (img : Image) (s : State) (pc : Nat) (vars : List (LoopVar × Val)) (h : Nat)
+    (rest : List Frame) (c : Rat) (fl : Bool) (m : UnitMode)
+    (hs : s.status = .running) (hpc : s.pc = (pc : Int)) (hc : CodeAt img pc cycleTail)
+    (hst : s.stack = .loop vars h :: rest) (hn : Num (getLV vars .counter) c fl)
+    (hm : s.regs .unitMode = .mode m) :
+    ∃ k vars' R, run img k s =
+        { s with pc := (pc : Int) + 18, regs := R, stack := .loop vars' h :: rest } ∧
+      (∀ q, q ≠ .result → R q = s.regs q) ∧
+      Num (getLV vars' .incr) (if c = 0 then 0 else ((turnOf m : Int) : Rat) / c) (!decide (c = 0)) ∧
+      (∀ l, l ≠ .incr → getLV vars' l = getLV vars l) := by
+  obtain ⟨k, R, hrun, hR⟩ := run_cycleIncr_val img s pc vars h rest c fl m hs hpc hc hst hn hm
+  refine ⟨k, _, R, hrun, hR, ?_, fun l hl => getLV_setLV_other _ _ _ _ hl⟩
+  rw [getLV_setLV_self]
+  by_cases h0 : c = 0
+  · simpa [h0] using Num.int 0
+  · simp only [h0, if_false, decide_false, Bool.not_false]
+    exact Num.num _
 
 
 /-! ## `repeat n with v from a to b` -/
@@ -2458,18 +2470,19 @@ section IterNames
 open Sem
 
 /-- **iter_names_order (general).**  The names `repeat in a₁ and … and aₙ and b₁ and …` visits
-are those of the first items followed by those of the remaining items, the latter computed in
-the state the former left: sources are visited in the order written. -/
+are those of the first items followed by those of the remaining items: sources are VISITED in the
+order written.  (They are EVALUATED from the last to the first, as the generated code does: the
+remaining items from the state `s`, the first items in the state those left.) -/
 theorem C04_iter_names_append (as bs : List IterItem) :
     ∀ (f : Nat) (s s2 : S) (zs : List String), iterNames f (as ++ bs) s = .ok (zs, s2) →
-      ∃ xs s1 ys, iterNames f as s = .ok (xs, s1) ∧ iterNames (f - as.length) bs s1 = .ok (ys, s2) ∧
+      ∃ ys s1 xs, iterNames (f - as.length) bs s = .ok (ys, s1) ∧ iterNames f as s1 = .ok (xs, s2) ∧
         zs = xs ++ ys := by
   induction as with
   | nil =>
     intro f s s2 zs h
     cases f with
     | zero => simp [iterNames] at h
-    | succ f => exact ⟨[], s, zs, by simp [iterNames], by simpa using h, rfl⟩
+    | succ f => exact ⟨zs, s2, [], by simpa using h, by simp [iterNames], rfl⟩
   | cons a as ih =>
     intro f s s2 zs h
     cases f with
@@ -2478,14 +2491,18 @@ theorem C04_iter_names_append (as bs : List IterItem) :
       simp only [List.cons_append, iterNames] at h ⊢
       split at h
       · simp at h
-      · rename_i xs s1 hone
+      · rename_i ys' s1' hrest
+        obtain ⟨ys, s1, xs, h1, h2, rfl⟩ := ih f s s1' ys' hrest
+        refine ⟨ys, s1, ?_⟩
+        simp only [List.length_cons, Nat.add_sub_add_right]
+        rw [h2]
+        simp only []
         split at h
         · simp at h
-        · rename_i ys' s2' hrest
+        · rename_i xs1 s2' hone
           simp only [Except.ok.injEq, Prod.mk.injEq] at h
           obtain ⟨rfl, rfl⟩ := h
-          obtain ⟨xs2, s1', ys, h1, h2, rfl⟩ := ih f s1 s2' ys' hrest
-          refine ⟨xs ++ xs2, s1', ys, by simp [h1], by simpa using h2, by simp⟩
+          exact ⟨xs1 ++ xs, h1, by simp [hone], by simp⟩
 
 /-- an item whose name is a string literal (or `all`) -/
 inductive LitItem : IterItem → Prop
@@ -2495,26 +2512,46 @@ inductive LitItem : IterItem → Prop
   | location (g : String) : LitItem (.location (.lit (.str g)))
 
 /-- what one source contributes: `all` the sorted, duplicate-free light names; a light itself;
-a group or location its members in name order (nothing if there is no such group) -/
+a group or location its members in name order, each once (nothing if there is no such group) -/
 def itemNames (vm : State) : IterItem → List String
   | .all => vm.lightNames
   | .light (.lit (.str x)) => [x]
-  | .group (.lit (.str g)) => (vm.groupLights g).getD []
-  | .location (.lit (.str g)) => (vm.locationLights g).getD []
+  | .group (.lit (.str g)) => dedupSorted ((vm.groupLights g).getD [])
+  | .location (.lit (.str g)) => dedupSorted ((vm.locationLights g).getD [])
   | _ => []
+
+/-- what evaluating the sources leaves behind: the kind of the first source that is not a single
+light, in the `operand` register (the discovery instructions are told what to walk through it) -/
+def itemsOperand : List IterItem → S → S
+  | [], s => s
+  | .all :: rest, s => (itemsOperand rest s).setReg .operand (.operand .light)
+  | .group _ :: rest, s => (itemsOperand rest s).setReg .operand (.operand .group)
+  | .location _ :: rest, s => (itemsOperand rest s).setReg .operand (.operand .location)
+  | .light _ :: rest, s => itemsOperand rest s
+
+theorem itemsOperand_lights (items : List IterItem) (s : S) :
+    (itemsOperand items s).vm.lights = s.vm.lights := by
+  induction items with
+  | nil => rfl
+  | cons i rest ih => cases i <;> simpa [itemsOperand, S.setReg, State.setReg] using ih
+
+theorem itemNames_congr {vm vm' : State} (h : vm.lights = vm'.lights) (i : IterItem) :
+    itemNames vm i = itemNames vm' i := by
+  unfold itemNames
+  split <;> simp [State.lightNames, State.groupLights, State.locationLights, h]
 
 /-- **iter_names_order.**  For literal sources the visiting order of `repeat in i₁ and … and iₙ`
 is the concatenation, in item order, of each item's names (`itemNames`), and computing it
-changes nothing. -/
+changes nothing but the `operand` register. -/
 theorem C04_iter_names_order (items : List IterItem) (hl : ∀ i ∈ items, LitItem i) :
     ∀ (f : Nat) (s : S), items.length < f →
-      iterNames f items s = .ok ((items.map (itemNames s.vm)).flatten, s) := by
+      iterNames f items s = .ok ((items.map (itemNames s.vm)).flatten, itemsOperand items s) := by
   induction items with
   | nil =>
     intro f s hf
     cases f with
     | zero => omega
-    | succ f => simp [iterNames]
+    | succ f => simp [iterNames, itemsOperand]
   | cons a as ih =>
     intro f s hf
     cases f with
@@ -2522,15 +2559,23 @@ theorem C04_iter_names_order (items : List IterItem) (hl : ∀ i ∈ items, LitI
     | succ f =>
       have hf' : as.length < f := by simpa using hf
       have ih' := ih (fun i hi => hl i (by simp [hi])) f s hf'
+      have hc : ∀ i, itemNames (itemsOperand as s).vm i = itemNames s.vm i :=
+        fun i => itemNames_congr (itemsOperand_lights as s) i
       cases f with
       | zero => omega
       | succ f =>
         have ha := hl a (by simp)
         cases ha with
-        | all => simp [iterNames, ih', itemNames]
-        | light x => simp [iterNames, evalRv, ih', itemNames]
-        | group g => simp [iterNames, evalRv, ih', itemNames]
-        | location g => simp [iterNames, evalRv, ih', itemNames]
+        | all => simp [iterNames, ih', itemNames, itemsOperand, State.lightNames, itemsOperand_lights]
+        | light x => simp [iterNames, evalRv, ih', itemNames, itemsOperand]
+        | group g =>
+          have := hc (.group (.lit (.str g)))
+          simp only [itemNames] at this
+          simp [iterNames, evalRv, ih', itemNames, itemsOperand, this]
+        | location g =>
+          have := hc (.location (.lit (.str g)))
+          simp only [itemNames] at this
+          simp [iterNames, evalRv, ih', itemNames, itemsOperand, this]
 
 end IterNames
 
